@@ -55,8 +55,10 @@ OnEnd == /\ Ev.e = "End"
                       ELSE IF Ev.k = "faulty-strict" /\ unacc # {} THEN "UnsentIsDeadLettered"
                       ELSE ""
          /\ UNCHANGED <<sent, got, asked, replied, dls>>
-OnOther == Ev.e \notin {"Reset", "Sent", "Recv", "Replied", "DLocal", "End"} /\ UNCHANGED <<bad, sent, got, asked, replied, dls>>
-Next == l <= Len(TLog) /\ l' = l + 1 /\ (OnReset \/ OnSent \/ OnRecv \/ OnReplied \/ OnDLocal \/ OnEnd \/ OnOther)
+(* Accept v: a connection whose handshake bytes are valid was accepted (1) or refused (0) by the receiving side *)
+OnAccept == Ev.e = "Accept" /\ bad' = (IF Ev.v # 1 THEN Flag("ValidConnectionAccepted") ELSE bad) /\ UNCHANGED <<sent, got, asked, replied, dls>>
+OnOther == Ev.e \notin {"Reset", "Sent", "Recv", "Replied", "DLocal", "End", "Accept"} /\ UNCHANGED <<bad, sent, got, asked, replied, dls>>
+Next == l <= Len(TLog) /\ l' = l + 1 /\ (OnReset \/ OnSent \/ OnRecv \/ OnReplied \/ OnDLocal \/ OnEnd \/ OnAccept \/ OnOther)
 Spec == Init /\ [][Next]_vars
 Ok == bad = ""
 Accepted == TLCGet("stats").diameter - 1 = Len(TLog)
